@@ -60,6 +60,16 @@ def flatten_pieces(t, nz, memo):
             if x[0] in ("array", "vec") and all(y[0] == "lit" and isinstance(y[1], str) for y in x[1]):
                 return flatten_pieces(t[1], nz, memo) + ["".join(y[1] for y in x[1])]
             return flatten_pieces(t[1], nz, memo) + [("arg", x, "display")]
+    if t[0] == "call" and isinstance(t[1], str) and t[1].rsplit("::", 1)[-1] in ("collect", "from_iter") and len(t[2]) == 1:
+        # a string collected from a literal list of characters / pieces: `[c, d].iter().collect::<String>()`
+        x = nz(partial.simplify(t[2][0], memo))
+        while x[0] == "call" and isinstance(x[1], str) and x[1].rsplit("::", 1)[-1] in ("iter", "into_iter", "copied", "cloned", "chars") and len(x[2]) == 1:
+            x = x[2][0]
+        if x[0] in ("array", "vec"):
+            out = []
+            for el in x[1]:
+                out += flatten_pieces(el, nz, memo)
+            return out
     if t[0] == "call" and isinstance(t[1], str) and t[1].rsplit("::", 1)[-1] in ("concat", "join") and t[2] and t[2][0][0] in ("array", "vec"):
         # [a, b, c].concat() / [a, b, c].join(sep): the pieces of the elements in order (with the separator in between)
         op = t[1].rsplit("::", 1)[-1]
